@@ -7,16 +7,14 @@ Import ListNotations.
 (* ---- class names ---- *)
 Lemma class_names_ok : forall k, k < 14 ->
   class_of (class_name k) class_names = Some k /\
-  forallb (fun c => negb (c =? ch_colon) && negb (c =? ch_rb)) (class_name k) = true /\
-  list_eqb (class_name k) punct_name = (k =? 7).
+  forallb (fun c => negb (c =? ch_colon) && negb (c =? ch_rb)) (class_name k) = true.
 Proof.
   assert (H : forallb (fun k => match class_of (class_name k) class_names with Some k' => k' =? k | None => false end &&
-                               forallb (fun c => negb (c =? ch_colon) && negb (c =? ch_rb)) (class_name k) &&
-                               Bool.eqb (list_eqb (class_name k) punct_name) (k =? 7)) (seq 0 14) = true)
+                               forallb (fun c => negb (c =? ch_colon) && negb (c =? ch_rb)) (class_name k)) (seq 0 14) = true)
     by (vm_compute; reflexivity).
   intros k Hk. rewrite forallb_forall in H. specialize (H k). rewrite in_seq in H.
-  assert (Hin : 0 <= k < 0 + 14) by lia. apply H in Hin. apply andb_true_iff in Hin as [Hin H3]. apply andb_true_iff in Hin as [H1 H2].
-  split; [|split; [exact H2|now apply eqb_prop]].
+  assert (Hin : 0 <= k < 0 + 14) by lia. apply H in Hin. apply andb_true_iff in Hin as [H1 H2].
+  split; [|exact H2].
   destruct (class_of _ _) as [k'|]; [|discriminate]. apply Nat.eqb_eq in H1. now subst.
 Qed.
 
@@ -34,38 +32,39 @@ Lemma scan_plain f c s1 expr : (c =? ch_rb) = false -> (c =? ch_lb) = false ->
   scan_bracket (S f) (c :: s1) expr = scan_bracket f s1 (expr ++ [c]).
 Proof. intros H1 H2. cbn [scan_bracket]. now rewrite H1, H2. Qed.
 
-Lemma find2_name name rest : forallb (fun c => negb (c =? ch_colon) && negb (c =? ch_rb)) name = true ->
-  find2 ch_colon ch_rb (name ++ ch_colon :: rest) = Some (length name).
-Proof.
-  induction name as [|a name IH]; intros H; cbn [app find2 length]; [now rewrite Nat.eqb_refl|].
-  cbn [forallb] in H. apply andb_true_iff in H as [Ha Hn]. apply andb_true_iff in Ha as [Ha1 Ha2].
-  rewrite (neqb_false _ _ Ha1), (neqb_false _ _ Ha2). cbn [orb]. now rewrite IH.
-Qed.
-
 Lemma skipn_app_len {A} (a b : list A) : skipn (length a) (a ++ b) = b.
 Proof. induction a; cbn; auto. Qed.
 Lemma firstn_app_len {A} (a b : list A) : firstn (length a) (a ++ b) = a.
 Proof. induction a; cbn; [reflexivity|]. now f_equal. Qed.
 
-Lemma scan_class f k tail expr : k < 14 -> k <> 7 ->
+Lemma take_class_cons a b t acc :
+  take_class (a :: b :: t) acc = if (a =? ch_colon) && (b =? ch_rb) then Some (acc, t) else take_class (b :: t) (acc ++ [a]).
+Proof. reflexivity. Qed.
+
+Lemma take_class_name : forall name acc tail, forallb (fun c => negb (c =? ch_colon) && negb (c =? ch_rb)) name = true ->
+  take_class (name ++ ch_colon :: ch_rb :: tail) acc = Some (acc ++ name, tail).
+Proof.
+  induction name as [|a name IH]; intros acc tail H.
+  - cbn [app take_class]. change ((ch_colon =? ch_colon) && (ch_rb =? ch_rb)) with true. cbv iota. now rewrite app_nil_r.
+  - cbn [forallb] in H. apply andb_true_iff in H as [Ha Hn]. apply andb_true_iff in Ha as [Ha1 _].
+    assert (E : exists b t', name ++ ch_colon :: ch_rb :: tail = b :: t') by (destruct name; cbn; eauto).
+    destruct E as (b & t' & E). cbn [app]. rewrite E. rewrite take_class_cons. rewrite (neqb_false _ _ Ha1). cbn [andb].
+    rewrite <- E. rewrite IH by assumption. now rewrite <- app_assoc.
+Qed.
+
+Lemma scan_class f k tail expr : k < 12 -> k <> 7 -> k <> 1 ->
   scan_bracket (S f) (show_bitem (BClass k) ++ tail) expr = scan_bracket f tail (expr ++ show_bitem (BClass k)).
 Proof.
-  intros Hk Hk7. destruct (class_names_ok k Hk) as (_ & Hn & Hp).
-  apply Nat.eqb_neq in Hk7. rewrite Hk7 in Hp.
+  intros Hk Hk7 Hk1. assert (Hk14 : k < 14) by lia. destruct (class_names_ok k Hk14) as (Hc & Hn).
+  apply Nat.eqb_neq in Hk7. apply Nat.eqb_neq in Hk1.
   cbn [show_bitem]. set (name := class_name k) in *.
   change (([ch_lb; ch_colon] ++ name ++ [ch_colon; ch_rb]) ++ tail) with (ch_lb :: ch_colon :: (name ++ [ch_colon; ch_rb]) ++ tail).
-  rewrite <- app_assoc. cbn [scan_bracket].
+  rewrite <- app_assoc. change ([ch_colon; ch_rb] ++ tail) with (ch_colon :: ch_rb :: tail). cbn [scan_bracket].
   change (ch_lb =? ch_rb) with false. change (ch_lb =? ch_lb) with true. cbv iota.
-  change ((ch_colon =? ch_dot) || (ch_colon =? ch_eq) || (ch_colon =? ch_colon)) with true. cbv iota.
-  change ([ch_colon; ch_rb] ++ tail) with (ch_colon :: ch_rb :: tail).
-  rewrite find2_name by exact Hn.
-  assert (Hl : (length (name ++ ch_colon :: ch_rb :: tail) <? length name + 2) = false).
-  { apply Nat.ltb_ge. rewrite app_length. cbn [length]. lia. }
-  rewrite Hl. change (ch_colon =? ch_colon) with true. rewrite firstn_app_len, Hp. cbn [andb].
-  replace (name ++ ch_colon :: ch_rb :: tail) with ((name ++ [ch_colon; ch_rb]) ++ tail) by now rewrite <- app_assoc.
-  replace (length name + 2) with (length (name ++ [ch_colon; ch_rb])) by (rewrite app_length; reflexivity).
-  rewrite skipn_app_len, firstn_app_len. f_equal.
-  rewrite <- !app_assoc. reflexivity.
+  change (ch_colon =? ch_colon) with true. cbv iota.
+  rewrite take_class_name by exact Hn. cbn [app]. rewrite Hc.
+  assert (H12 : (12 <=? k) = false) by (apply Nat.leb_gt; exact Hk). rewrite H12, Hk7, Hk1.
+  f_equal. rewrite <- !app_assoc. reflexivity.
 Qed.
 
 Lemma show_bitem_len b : 1 <= length (show_bitem b).
@@ -90,27 +89,13 @@ Proof.
       destruct fuel; [lia|]. rewrite scan_plain by reflexivity.
       destruct fuel; [lia|]. rewrite scan_plain by assumption.
       rewrite IH by (try assumption; lia). now rewrite <- !app_assoc.
-    + apply andb_true_iff in Hb as [Hb Hb7]. apply Nat.ltb_lt in Hb. apply negb_true_iff, Nat.eqb_neq in Hb7.
+    + apply andb_true_iff in Hb as [Hb Hb1]. apply andb_true_iff in Hb as [Hb Hb7]. apply Nat.ltb_lt in Hb.
+      apply negb_true_iff, Nat.eqb_neq in Hb7. apply negb_true_iff, Nat.eqb_neq in Hb1.
       destruct fuel; [lia|]. rewrite scan_class by assumption.
       pose proof (show_bitem_len (BClass k)). rewrite IH by (try assumption; lia). now rewrite <- !app_assoc.
 Qed.
 
 (* ---- Oniguruma's reading of the same body ---- *)
-Lemma take_class_cons a b t acc :
-  take_class (a :: b :: t) acc = if (a =? ch_colon) && (b =? ch_rb) then Some (acc, t) else take_class (b :: t) (acc ++ [a]).
-Proof. reflexivity. Qed.
-
-Lemma take_class_name : forall name acc tail, forallb (fun c => negb (c =? ch_colon) && negb (c =? ch_rb)) name = true ->
-  take_class (name ++ ch_colon :: ch_rb :: tail) acc = Some (acc ++ name, tail).
-Proof.
-  induction name as [|a name IH]; intros acc tail H.
-  - cbn [app take_class]. change ((ch_colon =? ch_colon) && (ch_rb =? ch_rb)) with true. cbv iota. now rewrite app_nil_r.
-  - cbn [forallb] in H. apply andb_true_iff in H as [Ha Hn]. apply andb_true_iff in Ha as [Ha1 _].
-    assert (E : exists b t', name ++ ch_colon :: ch_rb :: tail = b :: t') by (destruct name; cbn; eauto).
-    destruct E as (b & t' & E). cbn [app]. rewrite E. rewrite take_class_cons. rewrite (neqb_false _ _ Ha1). cbn [andb].
-    rewrite <- E. rewrite IH by assumption. now rewrite <- app_assoc.
-Qed.
-
 (* the first character of what follows an item is never "-" *)
 Definition no_minus (tail : list nat) : Prop := match tail with m :: _ => (m =? ch_minus) = false | [] => True end.
 
@@ -145,7 +130,8 @@ Proof.
     change (ch_minus =? ch_minus) with true. rewrite H1, H2. cbn [andb negb].
     apply Nat.leb_le in Hle. assert (Hlt : (hi <? lo) = false) by (apply Nat.ltb_ge; exact Hle). rewrite Hlt.
     apply after_item. exact Ht.
-  - apply andb_true_iff in Hb as [Hb _]. apply Nat.ltb_lt in Hb. destruct (class_names_ok k Hb) as (Hc & Hn & _).
+  - apply andb_true_iff in Hb as [Hb _]. apply andb_true_iff in Hb as [Hb _]. apply Nat.ltb_lt in Hb.
+    assert (Hb14 : k < 14) by lia. destruct (class_names_ok k Hb14) as (Hc & Hn).
     cbn [show_bitem]. set (name := class_name k) in *.
     change (([ch_lb; ch_colon] ++ name ++ [ch_colon; ch_rb]) ++ tail) with (ch_lb :: ch_colon :: (name ++ [ch_colon; ch_rb]) ++ tail).
     rewrite <- app_assoc. change ([ch_colon; ch_rb] ++ tail) with (ch_colon :: ch_rb :: tail).
@@ -210,11 +196,11 @@ Proof.
   assert (Hscan : forall e, scan_bracket (S (length (B ++ ch_rb :: rest))) (B ++ ch_rb :: rest) e = Some (e ++ B ++ [ch_rb], rest)).
   { intros e. apply scan_body; [exact Hall0|apply Nat.lt_succ_diag_r]. }
   unfold extract_bracket. destruct neg.
-  - cbn [app]. change (ch_bang =? ch_bang) with true. cbv iota.
+  - cbn [app]. change ((ch_bang =? ch_bang) || (ch_bang =? ch_caret)) with true. cbv iota.
     rewrite EB at 1. rewrite Hrb. rewrite Hscan.
     cbn [app tl tr_item]. cbn [app] in Hcc. rewrite Hcc. reflexivity.
-  - cbn [app orb] in *. apply andb_true_iff in Hfirst as [Hbang _]. apply neqb_false in Hbang.
-    rewrite EB at 1. rewrite Hbang. rewrite EB at 1. rewrite Hrb. rewrite Hscan.
+  - cbn [app orb] in *. apply andb_true_iff in Hfirst as [Hbang Hcaret]. apply neqb_false in Hbang. apply neqb_false in Hcaret.
+    rewrite EB at 1. rewrite Hbang, Hcaret. cbn [orb]. rewrite EB at 1. rewrite Hrb. rewrite Hscan.
     cbn [app tl tr_item]. rewrite Hcc. reflexivity.
 Qed.
 
